@@ -125,10 +125,32 @@ Proof.
   destruct parked; exact G.
 Qed.
 
+Lemma acc_ret_panicked s c x e : panicked (acc_ret s c x e) = panicked s.
+Proof.
+  unfold acc_ret. pose proof (release_call_by_panicked (setc s c (with_cpc x (CRel e))) (cref x) (Some c)) as G.
+  destruct (release_call_by (setc s c (with_cpc x (CRel e))) (cref x) (Some c)) as [s1 parked]. cbn [fst] in G.
+  destruct parked; exact G.
+Qed.
+
+Lemma acc_s1_panicked s c x : panicked (acc_s1 s c x) = panicked s.
+Proof.
+  unfold acc_s1. destruct (negb (Nat.eqb (ac_err x) 0)); [apply acc_ret_panicked|].
+  destruct (ac_res x); [reflexivity|]. destruct (ccanc x); [apply acc_ret_panicked | reflexivity].
+Qed.
+
+Lemma cb_return_panicked fx s c res : panicked (cb_return fx s c res) = panicked s.
+Proof.
+  unfold cb_return. destruct (nth_error (conss s) c) as [x|]; [|reflexivity].
+  destruct (ck x); try reflexivity. destruct (cpcv x); try reflexivity.
+  destruct (ccanc x); [apply acc_ret_panicked|].
+  match goal with |- _ (if ?b then _ else _) = _ => destruct b end; [apply acc_ret_panicked | reflexivity].
+Qed.
+
 Lemma cons_step_panicked s c : panicked (cons_step s c) = panicked s.
 Proof.
   unfold cons_step. destruct (nth_error (conss s) c) as [x|]; [|reflexivity].
-  destruct (ck x), (cpcv x); try reflexivity.
+  destruct (ck x), (cpcv x); try reflexivity; try apply acc_s1_panicked.
+  3:{ destruct (negb (Nat.eqb (ac_nonce x) (ac_snap x))); [apply acc_s1_panicked|]. destruct (ccanc x); [apply acc_ret_panicked | reflexivity]. }
   - destruct (cw_res x) as [[v e]|]; [destruct (Nat.eqb e 0); [reflexivity | apply cons_fail_panicked] | destruct (ccanc x); [apply cons_fail_panicked | reflexivity]].
   - destruct (ww_prom x) as [[v e]|]; [destruct (Nat.eqb e 0); [reflexivity | apply cons_fail_panicked] | destruct (ccanc x); [apply cons_fail_panicked | reflexivity]].
 Qed.
@@ -150,7 +172,7 @@ Proof.
   destruct e; cbn [step].
   - unfold set_context. destruct (Nat.eqb (kctx s) c); [reflexivity|]. cbn [fst]. now rewrite start_resolve_panicked.
   - apply add_ref_panicked.
-  - apply release_call_by_panicked.
+  - destruct (rkind (nth r (refs s) ref0)); try reflexivity; apply release_call_by_panicked.
   - unfold release_section. destruct (nth_error (relacts s) a) as [x|]; [|reflexivity]. destruct (ra_pc x); [|reflexivity].
     set (s1 := remove_ref _ (ra_ref x)).
     assert (E : panicked s1 = panicked s) by (unfold s1; now rewrite remove_ref_panicked).
@@ -170,13 +192,14 @@ Proof.
   - destruct (nth_error (conss s) c); reflexivity.
   - unfold fire_section. destruct (nth_error (conss s) c) as [x|]; [|reflexivity]. destruct (ww_firepc x) as [[|]|]; try reflexivity.
     now rewrite remove_ref_panicked.
+  - apply cb_return_panicked.
 Qed.
 
 Theorem never_panics k es : panicked (run repaired (init k) es) = false.
 Proof. unfold run. apply fold_inv; [intros s e H; now rewrite step_panicked | reflexivity]. Qed.
 
 (* the pinned code (before the D9 repair): AddRef(nil) on a resolved container calls the nil callback *)
-Definition pinned_d9 : fixes := {| fx_wait := true; fx_nilcb := false |}.
+Definition pinned_d9 : fixes := {| fx_wait := true; fx_nilcb := false; fx_accnonce := true |}.
 Definition d9_witness : list ev := [ESetCtx 1; EAddRef 1; EProceed 0 true; EResReturn 0 1 true 0; EStore 0; EAddRef 0].
 Lemma d9_refuted : panicked (run pinned_d9 (init false) d9_witness) = true.
 Proof. vm_compute. reflexivity. Qed.
